@@ -19,22 +19,22 @@ NA = {
 
 TECH = {
     "C02": "ILP constraint-template extraction (linear normal forms with loop/guard context) checked against a required-family table; truth-table folding of XOR/OR gadgets",
-    "C03": "ILP constraint-template extraction + extensional index-filter comparison + guard dominance for user/default structure routes",
+    "C03": "whole-function folding of solve_cn_model and the lifted solver wrapper class against a recording MILP-library stand-in; the extracted model is enumerated exhaustively (own simplex for the continuous part) and compared pointwise with an independent reference of the documented model; report checked clause by clause; routes by folding estimate_cn, _parse_user_solution, the database loader and genotype()",
     "C04": "ILP constraint-template extraction (count ties, products, coverage equations, rules 2-5, objective, read-out)",
     "C05": "truth-table folding of extracted abssum/prod gadget constraints; typestate / must-pass-through on the CFG of the solution enumerator",
     "C06": "per-op tables of the CIGAR walkers derived by partial evaluation of the lifted parser on one tiny read per op (plus a syntactic cursor table read off the if/elif chain) vs the SAM consumes-reference/query table; eligibility loop folded on read stubs; tuple layout; out-of-gene folding",
-    "C07": "formula of the lifted normalisation routine folded on sample depth tables (monomial, k-fold invariance, self-profile = 2.0 through the lifted profile writer); sibling depth-counter agreement table per CIGAR op; zero-guard dominance",
+    "C07": "formula of the lifted normalisation routine folded on sample depth tables (monomial, k-fold invariance, self-profile = 2.0 through the profile writer folded whole on synthesised reads); sibling depth-counter agreement per CIGAR op and per SAM flag class (loaders folded whole); zero-guard; estimate_cn folded whole for the consumer",
     "C08": "lifted coordinate converter folded on generated variants of every kind x strand (sequence-level haplotype equality) plus a syntactic per-kind strand offset table as linear forms over len(); inverse maps and lookup sequence vs an independent reading of the alignment string; stored-notation readers; indel bridge with a recording Variant stub",
     "C09": "bounded partial evaluation of the lifted database loader on generated gene databases (two builds, opposite strands, fusions, deletion, duplicates; thorough: seeded random allele tables); loaded catalogue checked clause by clause against an independent reading of the database",
-    "C10": "guard dominance for empty-stage errors; def-use expansion of the carried score formula; folded selection predicate; positional wiring of re-wrapped solutions",
+    "C10": "whole-function folding of genotype() and estimate_minor() with recording stubs for every collaborator over fixed and seeded scenarios of stage results; outcome compared with an independent reading of the statement (carried differences, rescaling, relative filter, order, chain, empty-stage error)",
     "C11": "bounded-exhaustive partial evaluation of the lifted arrangement function and name renderers on every multiset of up to 3 (thorough 5) alleles in every order, checked clause by clause against an independent reading",
-    "C12": "sibling cross-check of the carried-variant set algebra in every writer; replicated-mutable-cell rule; REF/ALT derivation per kind branch",
-    "C14": "interprocedural mutation-effect / alias analysis over the call graph (who may write catalogue and evidence); late-bound closure capture via symtable; hash-order taint; write-only debug store",
+    "C12": "whole-function folding of the two file writers on sample solutions (rows/records per copy, identical copies, lost and gained variants, two solutions) and of genotype() for the output dispatch; replicated-mutable-cell rule; REF/ALT derivation per kind branch",
+    "C14": "interprocedural mutation-effect / alias analysis over the call graph (who may write catalogue and evidence); late-bound closure capture via symtable; hash-order taint; write-only debug store; multi-gene and call-history independence by whole-function folding of genotype() with module helpers and cache decorators modelled",
     "C15": "Coverage typestate dataflow (quality filter before every model read); folded quality / threshold predicates; tuple layout agreement",
-    "C16": "loader/consumer agreement on indel bookkeeping; Optional-op dominance via reaching definitions and guard facts; folded GT arity guard; pseudo-read constants; evidence table of the lifted VCF record loop on 15 record kinds",
-    "C17": "positional agreement of pickled / unpickled tuple; codec pairs; completeness of dumped state; suffix/marker template agreement",
-    "C18": "call-graph reachability of the single typed update from every route; folding of the conversion branch over the documented spelling table; precedence and sibling-parser agreement",
-    "C19": "guard dominance on statement CFGs pruned by route assumptions; lifted guards folded over an enumerated depth grid; newline pairing as a must-pass-through rule",
+    "C16": "loader/consumer agreement on indel bookkeeping; Optional-op dominance via reaching definitions and guard facts; folded GT arity guard; pseudo-read constants; _load_vcf folded whole on a variant-file stub (17 record kinds, sample index; thorough: generated records vs an independent reading); genotype() folded whole for the fixed two-copy structure",
+    "C17": "positional agreement of pickled / unpickled tuple by role; codec pairs; completeness of dumped state; purity of what runs between loader and dump writer (folded on sample tables); writer -> reader -> coverage construction folded whole; original run vs replay through genotype() folded whole",
+    "C18": "the Profile class (constructor, typed update, loader, profile writer) lifted with Python calling convention and folded over all parameters x spellings x routes (API, options section, precedence, write/load round trip, history); genotype() and the command-line driver folded whole for the routes; sibling --param parsers",
+    "C19": "whole-function folding of genotype() over input kind x structure given/estimated x depth x minimum x output style (error before any stage, closed simple-output line); estimate_cn folded whole over depth tables; empty-neutral-region and diploid-depth guards by CFG dominance",
 }
 
 BASE = ("cd /repo && /venv/bin/python -m pytest -ra -q -p no:cacheprovider --timeout=900 "
